@@ -5,6 +5,8 @@ import (
 	"os"
 	"path/filepath"
 	"sync"
+
+	"github.com/hydraide/hydraide/app/verifhook"
 )
 
 // Compactor handles file compaction to remove fragmentation.
@@ -168,6 +170,7 @@ func (c *Compactor) Compact() (*CompactionResult, error) {
 	}
 
 	// Atomic rename: replace old file with new
+	verifhook.Point("compactor.beforeRename")
 	if err := os.Rename(tempPath, c.filePath); err != nil {
 		os.Remove(tempPath)
 		result.Error = err
@@ -279,6 +282,7 @@ func CompactFromIndex(filePath string, maxBlockSize int, swampName string, index
 		return result, err
 	}
 
+	verifhook.Point("compactor.beforeRename")
 	if err := os.Rename(tempPath, filePath); err != nil {
 		os.Remove(tempPath)
 		result.Error = err
